@@ -17,16 +17,15 @@ PKGS=$(for d in $DEMOS; do echo ./$(dirname $d); done | sort -u | tr '\n' ' ')
 (cd $S && git apply $OUT/patch.diff && timeout 600 go test -vet=off -count=1 -run 'TestSeed|Seed' $PKGS > /tmp/seed_with.log 2>&1); WITH=$?
 (cd $S && go build ./... > /tmp/seed_build.log 2>&1); BUILD=$?
 python3 /verif/tools/baseline.py $S > /tmp/seed_base.log 2>&1; BASE=$?
-git -C /repo worktree remove --force $S
 echo "demo_without_patch_exit=$WITHOUT (want 0) demo_with_patch_exit=$WITH (want !=0) build=$BUILD baseline=$BASE"
 tail -1 /tmp/seed_base.log
-# run the check against /repo with the change applied
-git -C /repo apply $OUT/patch.diff || { echo "patch does not apply to /repo"; exit 2; }
-(cd /verif && timeout 2400 ./bin/vcheck run $P --no-evidence > $OUT/check_output.txt 2>&1); CHK=$?
-git -C /repo checkout -- .
+# run the check against the scratch worktree with the change applied (VERIF_REPO), demo files removed
+for d in $DEMOS; do rm -f $S/$d; done
+(cd /verif && VERIF_REPO=$S timeout 2400 ./bin/vcheck run $P --no-evidence > $OUT/check_output.txt 2>&1); CHK=$?
+git -C /repo worktree remove --force $S
 grep -E "^VIOLATION|^  c[0-9]|INCONCLUSIVE|^OK" $OUT/check_output.txt | cut -c1-220 | head -12
 echo "check_exit=$CHK"
 cat > $OUT/meta.json <<EOM
 {"property": "$P", "name": "$NAME", "demo_without_patch_exit": $WITHOUT, "demo_with_patch_exit": $WITH, "build_exit": $BUILD, "baseline_exit": $BASE, "check_exit": $CHK,
- "ran": ["go test -run TestSeed (with and without patch) in a scratch worktree", "python3 tools/baseline.py <worktree> (stable_pass set)", "git -C /repo apply patch.diff; bin/vcheck run $P; git -C /repo checkout -- ."]}
+ "ran": ["go test -run TestSeed (with and without patch) in a scratch worktree", "python3 tools/baseline.py <worktree> (stable_pass set)", "VERIF_REPO=<scratch worktree with patch.diff applied> bin/vcheck run $P (equivalent to applying the patch to /repo)"]}
 EOM
